@@ -833,6 +833,16 @@ func heldClause(x *SExpr) (*SExpr, bool) {
 
 // lockKeyOf computes the typestate key of the mutex of the object denoted by spec expr x.
 func (fr *Frame) lockKeyOf(st *State, x *SExpr, b map[string]*SVal, pkgPath string) (string, *LockInv) {
+	// held(TypeName): some instance of that type's lock is held (for helpers of objects the lock protects)
+	if x.Kind == "id" {
+		if _, bound := b[x.Name]; !bound {
+			for _, li := range fr.e.cs.Locks {
+				if li.RecvType == x.Name && (li.PkgPath == pkgPath || pkgPath == "") {
+					return "*#" + li.PkgPath + "." + li.RecvType + "." + li.Mutex, li
+				}
+			}
+		}
+	}
 	sv := fr.evalSpecPkg(st, x, b, nil, pkgPath)
 	n := namedOf(sv.Ty)
 	if n == nil {
@@ -858,6 +868,13 @@ func (fr *Frame) lockKeyOf(st *State, x *SExpr, b map[string]*SVal, pkgPath stri
 func (fr *Frame) checkHeld(st *State, x *SExpr, b map[string]*SVal, pkgPath string, n ast.Node, callee string) {
 	key, _ := fr.lockKeyOf(st, x, b, pkgPath)
 	m, held := st.locks[key]
+	if strings.HasPrefix(key, "*#") {
+		for k, mm := range st.locks {
+			if strings.HasSuffix(k, key[1:]) && mm == "W" {
+				m, held = mm, true
+			}
+		}
+	}
 	fr.e.oblige(fr, st, "pre:"+callee+"#held", "", fr.site("call", n), BoolLit(held && m == "W"), n, nil, "callee requires the lock to be held")
 }
 
